@@ -34,7 +34,7 @@ func (w *World) handler() *handler {
 	h.reply = w.P.Func("(*Server).reply")
 	h.sendError = w.P.Func("(*Server).sendError")
 	seen := map[string]bool{}
-	eachInstr([]*ssa.Function{h.fn}, func(fn *ssa.Function, ins ssa.Instruction) {
+	eachInstr(w.RegionOf(h.fn), func(fn *ssa.Function, ins ssa.Instruction) {
 		if bo, ok := ins.(*ssa.BinOp); ok && bo.Op.String() == "==" {
 			x, y := w.TS.Of(bo.X), w.TS.Of(bo.Y)
 			if y.Op == OpConst && x.Op == OpField && x.Obj == h.msgQ {
@@ -116,8 +116,8 @@ func (h *handler) casesAt(w *World, ins ssa.Instruction) []string {
 // replySites: calls of reply / sendError inside the handler (including its closures).
 func (h *handler) replySites(w *World) []ssa.Instruction {
 	var out []ssa.Instruction
-	out = append(out, w.CallsIn(h.fn, h.reply, true)...)
-	out = append(out, w.CallsIn(h.fn, h.sendError, true)...)
+	out = append(out, w.CallsInRegion(h.fn, h.reply)...)
+	out = append(out, w.CallsInRegion(h.fn, h.sendError)...)
 	sort.Slice(out, func(i, j int) bool { return out[i].Pos() < out[j].Pos() })
 	return out
 }
@@ -161,6 +161,17 @@ func c08r1(w *World, rr *RuleRun) {
 		base, ok := fieldChain(tid, h.msgT)
 		rr.At(w, site, name+" transaction id is the query's t", ok && termEq(base, h.m), "t argument: "+tid.String())
 	}
+}
+
+// literalStoresRegion: literalStores over root and its folded helpers.
+func (w *World) literalStoresRegion(root *ssa.Function, typ *types.Named) map[string]ssa.Value {
+	out := map[string]ssa.Value{}
+	for _, f := range w.RegionOf(root) {
+		for k, v := range w.literalStores(f, typ) {
+			out[k] = v
+		}
+	}
+	return out
 }
 
 // literalStores: field stores into a local struct (composite literal) of the given named type in fn.
@@ -442,7 +453,7 @@ func c08r4(w *World, rr *RuleRun) {
 	setReturnNodes := w.P.FuncOpt("(*Server).setReturnNodes")
 	// default branch
 	nDefault := 0
-	for _, site := range w.CallsIn(h.fn, h.sendError, true) {
+	for _, site := range w.CallsInRegion(h.fn, h.sendError) {
 		cases := h.casesAt(w, site)
 		if len(cases) == 1 && cases[0] == "default" {
 			nDefault++
@@ -455,7 +466,7 @@ func c08r4(w *World, rr *RuleRun) {
 	}
 	// which method cases use the arguments dict?
 	uses := map[string]ssa.Instruction{}
-	eachInstr(append([]*ssa.Function{h.fn}, h.fn.AnonFuncs...), func(fn *ssa.Function, ins ssa.Instruction) {
+	eachInstr(w.regionFuncs(h.fn), func(fn *ssa.Function, ins ssa.Instruction) {
 		if fn != h.fn && w.FE.inlineAt[fn] == nil {
 			return
 		}
@@ -491,7 +502,7 @@ func c08r4(w *World, rr *RuleRun) {
 	// sendError sites with facts {case C, m.A == nil} and a 203 error
 	has203 := map[string]string{}
 	mA := FieldTerm(h.m, h.msgA)
-	for _, site := range w.CallsIn(h.fn, h.sendError, true) {
+	for _, site := range w.CallsInRegion(h.fn, h.sendError) {
 		st := w.FE.StateBefore(site)
 		if st == nil {
 			continue
